@@ -512,4 +512,19 @@ def crashOps (k j : Nat) (ops : List DOp) : List DOp :=
   | some op => ops.take k ++ [op.fail j]
   | none => ops
 
+/-! ### a destination opened with O_APPEND (the first caveat of `encoder.New`: "the behavior of the Encoder is not specified") -/
+
+/-- effect of one logged operation on a file opened with `O_APPEND`: every `Write` goes to the END of the file wherever
+the position is (and leaves the position there); a seek moves the position only. (`(*os.File).WriteAt` refuses such a
+file; an `*os.File` is an `io.WriteSeeker` for the encoder, which never calls its `WriteAt`.) -/
+def Dest.applyAppend (d : Dest) : DOp → Dest
+  | .write p t ok => { content := d.content ++ p.take t, pos := d.content.length + t, log := .write p t ok :: d.log }
+  | .writeAt p off t ok => { d with log := .writeAt p off t ok :: d.log }
+  | .seek delta ok =>
+    if ok then { d with pos := ((d.pos : Int) + delta).toNat, log := .seek delta ok :: d.log }
+    else { d with log := .seek delta ok :: d.log }
+
+/-- replay of an operation sequence (oldest first) on an `O_APPEND` file -/
+def Dest.runAppend (d : Dest) (ops : List DOp) : Dest := ops.foldl Dest.applyAppend d
+
 end Fit.Writer
